@@ -78,8 +78,34 @@ func vC17ErrCode(err error) int {
 	return 99
 }
 
-// read everything the comment-aware reader delivers, rd bytes at a time, until it fails
-func vC17Drain(segs [][]byte, fin, rd int, dt bool) (out []byte, code int, panicked bool) {
+// the consumer: buffer sizes used cyclically, and how many Read calls it makes at most
+type vC17Cons struct {
+	pat   []int
+	calls int
+}
+
+// rd = n: buffers of n bytes, as many calls as it takes (at most one per input byte plus two);
+// rd = (calls n1 n2 ...): the sizes n1 n2 ... cyclically, calls calls
+func vC17ConsOf(rd vSx, inputLen int) (vC17Cons, bool) {
+	if rd.isInt() {
+		return vC17Cons{[]int{rd.int()}, inputLen + 2}, true
+	}
+	if !rd.isList() || len(rd.l) < 2 {
+		return vC17Cons{}, false
+	}
+	c := vC17Cons{calls: rd.l[0].int()}
+	for _, x := range rd.l[1:] {
+		if !x.isInt() || x.int() < 0 {
+			return vC17Cons{}, false
+		}
+		c.pat = append(c.pat, x.int())
+	}
+	return c, true
+}
+
+// the consumer calls Read until the first error (io.EOF included) or until it stops calling;
+// code 0 = ended with io.EOF, -1 = the consumer stopped first, else the error class
+func vC17Drain(segs [][]byte, fin int, cons vC17Cons, dt bool) (out []byte, code int, panicked bool) {
 	defer func() {
 		if r := recover(); r != nil {
 			panicked = true
@@ -88,11 +114,8 @@ func vC17Drain(segs [][]byte, fin, rd int, dt bool) (out []byte, code int, panic
 	cp := make([][]byte, len(segs))
 	copy(cp, segs)
 	r := NewJsonPlusReader(&vC17Src{segs: cp, fin: fin, dt: dt})
-	if rd < 1 {
-		rd = 1
-	}
-	p := make([]byte, rd)
-	for {
+	for i := 0; i < cons.calls; i++ {
+		p := make([]byte, cons.pat[i%len(cons.pat)])
 		n, err := r.Read(p)
 		out = append(out, p[:n]...)
 		if err == io.EOF {
@@ -102,6 +125,7 @@ func vC17Drain(segs [][]byte, fin, rd int, dt bool) (out []byte, code int, panic
 			return out, vC17ErrCode(err), false
 		}
 	}
+	return out, -1, false
 }
 
 // ---- documents ----
@@ -367,7 +391,25 @@ func vC17Fin(r *vRng) int {
 	return 0
 }
 
-func vC17Rd(r *vRng) int { return r.pickInt(1, 2, 7, 64, 512, 4096, 100000) }
+// consumer buffer sizes: constant, or a cyclic pattern with sizes 0 and 1 and buffers smaller
+// than a token, possibly giving up early
+func vC17Rd(r *vRng) vSx {
+	if r.chance(3, 5) {
+		return vI(r.pickInt(1, 1, 2, 3, 7, 64, 512, 4096, 100000))
+	}
+	n := r.rng(1, 4)
+	items := []vSx{vI(r.pickInt(0, 1, 2, 5, 30, 200, 1000, 5000))}
+	pos := false
+	for i := 0; i < n; i++ {
+		v := r.pickInt(0, 0, 1, 1, 2, 3, 5, 16, 300)
+		pos = pos || v > 0
+		items = append(items, vI(v))
+	}
+	if !pos && r.chance(3, 4) {
+		items = append(items, vI(r.pickInt(1, 4)))
+	}
+	return vLs(items)
+}
 
 func vC17DocCase(r *vRng, items []vC17Item, tail []byte, hasTail bool) vSx {
 	dec, _ := vC17Render(items, tail, hasTail)
@@ -375,7 +417,7 @@ func vC17DocCase(r *vRng, items []vC17Item, tail []byte, hasTail bool) vSx {
 	if hasTail {
 		tl = vL(vB(tail))
 	}
-	return vL(vI(1), vC17ItemsSx(items), tl, vLs(vC17Lens(r, len(dec))), vI(vC17Fin(r)), vI(vC17Rd(r)), vI(r.pickInt(0, 0, 1)))
+	return vL(vI(1), vC17ItemsSx(items), tl, vLs(vC17Lens(r, len(dec))), vI(vC17Fin(r)), vC17Rd(r), vI(r.pickInt(0, 0, 1)))
 }
 
 // a random JSON value, decorated
@@ -509,7 +551,7 @@ func vC17GenRaw(r *vRng) vSx {
 		}
 		segs = append(segs, vB([]byte("1")))
 	}
-	return vL(vI(0), vLs(segs), vI(vC17Fin(r)), vI(vC17Rd(r)), vI(r.pickInt(0, 0, 1)))
+	return vL(vI(0), vLs(segs), vI(vC17Fin(r)), vC17Rd(r), vI(r.pickInt(0, 0, 1)))
 }
 
 // ---- one case ----
@@ -520,7 +562,8 @@ func vC17Run(k *vKit, c vSx) {
 		return
 	}
 	var segs [][]byte
-	var fin, rd int
+	var fin int
+	var rd vSx
 	dt := false
 	var dec, plain []byte
 	var items []vC17Item
@@ -532,7 +575,7 @@ func vC17Run(k *vKit, c vSx) {
 			segs = append(segs, s.b)
 			dec = append(dec, s.b...)
 		}
-		fin, rd, dt = c.l[2].int(), c.l[3].int(), c.l[4].int() != 0
+		fin, rd, dt = c.l[2].int(), c.l[3], c.l[4].int() != 0
 	case 1:
 		if len(c.l) != 7 {
 			k.record(c, bad, false)
@@ -559,17 +602,26 @@ func vC17Run(k *vKit, c vSx) {
 		if len(rest) > 0 {
 			segs = append(segs, rest)
 		}
-		fin, rd, dt = c.l[4].int(), c.l[5].int(), c.l[6].int() != 0
+		fin, rd, dt = c.l[4].int(), c.l[5], c.l[6].int() != 0
 	default:
 		k.record(c, bad, false)
 		return
 	}
 
-	out, code, panicked := vC17Drain(segs, fin, rd, dt)
+	cons, okc := vC17ConsOf(rd, len(dec))
+	if !okc {
+		k.record(c, bad, false)
+		return
+	}
+	out, code, panicked := vC17Drain(segs, fin, cons, dt)
 	var obs vSx
 	switch {
 	case panicked:
 		obs = vPanicObs()
+	case code == -1 && structured:
+		obs = vL(vZ(4), vB(out), vBool(guard))
+	case code == -1:
+		obs = vL(vZ(4), vB(out))
 	case code == 0 && structured:
 		obs = vOk(vB(out), vBool(guard))
 	case code == 0:
@@ -622,9 +674,19 @@ func vC17Run(k *vKit, c vSx) {
 		fail("no-panic", "reader panicked on "+show(dec))
 		return
 	}
+	k.count("consumer", map[bool]string{true: "constant size", false: "pattern"}[rd.isInt()])
+	if code == -1 {
+		// the consumer stopped first: what it has is a prefix of what one big read delivers
+		k.count("consumer-stopped-early", "1")
+		out1, _, p1 := vC17Drain([][]byte{dec}, 0, vC17Cons{[]int{1 << 20}, len(dec) + 2}, false)
+		if p1 || !bytes.HasPrefix(out1, out) {
+			fail("consumer-prefix", fmt.Sprintf("a consumer that stopped early received %s, the whole output is %s", show(out), show(out1)))
+		}
+		return
+	}
 	// segmentation independence, directly: one read of everything gives the same result
 	if fin == 0 && code != 3 {
-		out1, code1, p1 := vC17Drain([][]byte{dec}, 0, 1<<20, false)
+		out1, code1, p1 := vC17Drain([][]byte{dec}, 0, vC17Cons{[]int{1 << 20}, len(dec) + 2}, false)
 		if p1 || code1 != code || !bytes.Equal(out1, out) {
 			fail("segmentation", fmt.Sprintf("segmented: code %d out %s; unsegmented: code %d out %s", code, show(out), code1, show(out1)))
 		}
